@@ -24,12 +24,15 @@
 (*                                                                                              *)
 (* Variant = "design": what the property needs.  Named as-coded deviations (negative controls):  *)
 (*   "D2"  HandleError writes nothing and still counts the pair as yield         (l.224-239)     *)
-(*   "D20" the raw fallback record has no trailing newline: the next record written to the same  *)
+(*   "D101" the raw fallback record has no trailing newline: the next record written to the same  *)
 (*         rejects file is glued to its quality line                             (l.214-221)     *)
-(*   "D21" the raw fallback rebinds the loop variable `reads` to a list of str; every later      *)
+(*   "D102" the raw fallback rebinds the loop variable `reads` to a list of str; every later      *)
 (*         strategy of the same pair then raises AttributeError                  (l.214)         *)
-(*   "D22" an exception other than NonMultiplexable from the base demux inside the               *)
+(*   "D103" an exception other than NonMultiplexable from the base demux inside the               *)
 (*         NonMultiplexable handler leaves demultiplex(): the run aborts         (l.207-212)     *)
+(*   "D104" the per-cell sink (FastqHandle.write, single_cell) reads record.tags, but the bulk    *)
+(*         strategy (IlluminaBaseDemultiplexer, shortName ILLU) returns formatted strings:        *)
+(*         AttributeError, so an accepted pair takes the HandleError arm    (fastqHandle.py:39)   *)
 (*   "impl" all of them (the code at the pinned commit).                                         *)
 (* Not modelled: the clamp arithmetic of phredToFastqHeaderSafeQualities (D1, property C04) -    *)
 (* here it is one of the causes of outcome "E"; HandleLimiter faults (C19).                      *)
@@ -43,6 +46,7 @@ CONSTANTS N,               \* pairs in the library
           MaxPairChoices,  \* subset of 0..N, 0 = no cut-off
           Classes,         \* subset of {"A","N","W","X","E"}
           PairLevelOnly,   \* TRUE: only outcome matrices the replay driver can realise
+          PlainStrats,     \* strategies that return already formatted records (str) instead of tagged records
           Variant
 
 Dev(d) == Variant = "impl" \/ Variant = d
@@ -78,8 +82,10 @@ TRec(p, k)         == [id |-> p, s |-> k, ok |-> TRUE]
 RRec(p, k, m, nl)  == [id |-> p, s |-> k, ok |-> TRUE, faithful |-> TRUE, reason |-> TRUE, content |-> <<p, m>>, nl |-> nl]
 AppendMates(f, r(_)) == [m \in 1 .. 2 |-> IF m <= mates THEN Append(f[m], r(m)) ELSE f[m]]
 
-(* what strategy k does with the current pair: after the rebinding of D21 it is handed strings *)
-Eff(p, k) == IF stale THEN "E" ELSE out[p][k]
+(* what strategy k does with the current pair: after the rebinding of D102 it is handed strings *)
+Eff(p, k) == IF stale THEN "E"
+             ELSE IF out[p][k] = "A" /\ NCells > 1 /\ k \in PlainStrats /\ Dev("D104") THEN "E"   \* the sink raises
+             ELSE out[p][k]
 
 Advance ==
     IF si < K THEN si' = si + 1 /\ pc' = "strat"
@@ -105,14 +111,14 @@ RejectViaBase ==
 
 RejectRaw ==
     /\ pc = "strat" /\ Eff(pos, si) = "W"
-    /\ rej' = IF hasRej THEN AppendMates(rej, LAMBDA m : RRec(pos, si, m, ~Dev("D20"))) ELSE rej
-    /\ stale' = IF hasRej /\ Dev("D21") THEN TRUE ELSE stale
+    /\ rej' = IF hasRej THEN AppendMates(rej, LAMBDA m : RRec(pos, si, m, ~Dev("D101"))) ELSE rej
+    /\ stale' = IF hasRej /\ Dev("D102") THEN TRUE ELSE stale
     /\ Advance
     /\ UNCHANGED <<scn, pos, tgt, yields, processed, logged>>
 
 RejectBaseFails ==
     /\ pc = "strat" /\ Eff(pos, si) = "X"
-    /\ IF hasRej /\ Dev("D22")
+    /\ IF hasRej /\ Dev("D103")
        THEN pc' = "crashed" /\ UNCHANGED <<si, rej>>          \* the exception leaves demultiplex()
        ELSE /\ rej' = IF hasRej THEN AppendMates(rej, LAMBDA m : RRec(pos, si, m, TRUE)) ELSE rej
             /\ Advance
